@@ -14,10 +14,10 @@ from common import MachineryError, Scratch, Verdict
 PID = "C17"
 # shapes of the nested generator for a given number k of Values (the spec only fixes k)
 INNER = {0: ["", "A", "AA"], 1: ["V", "AV", "VA", "AVA"], 2: ["VV", "AVV", "VAV", "AVAVA"]}
-OPNAME = {"next": "next", "compute": "compute", "list": "list_of_generator", "take": "take_first"}
+OPNAME = {"next": "next", "compute": "compute", "list": "list_of_generator", "take": "take_first", "start": "start"}
 TIERS = {
-    "quick": dict(DEPTH="4", MAXLEN="4", MAXLENG="3", MAXK="2", TAKEMAX="6", MAXCONS="2"),
-    "thorough": dict(DEPTH="5", MAXLEN="5", MAXLENG="4", MAXK="2", TAKEMAX="6", MAXCONS="2"),
+    "quick": dict(DEPTH="4", MAXLEN="4", MAXLENG="3", MAXK="2", TAKEMAX="6", MAXCONS="2", EXTRA="2"),
+    "thorough": dict(DEPTH="5", MAXLEN="5", MAXLENG="4", MAXK="2", TAKEMAX="6", MAXCONS="2", EXTRA="1"),
 }
 
 
@@ -41,6 +41,9 @@ def expand(hs, tier):
 
 def trigger_of(case, j):
     o = case["h"][j]
+    if o["op"] in ("next", "compute") and any(x["op"] == "start" for x in case["h"][:j]) and \
+            not any(x["op"] == "compute" for x in case["h"][max(i for i in range(j) if case["h"][i]["op"] == "start"):j]):
+        return o["res"]["k"] + "_while_started"      # the previous future has started and is suspended on a batch
     if o["op"] == "take":
         return "n=0" if o["n"] == 0 else "n>0"
     return o["res"]["k"]
@@ -95,17 +98,21 @@ def main():
         bodies = sorted({"".join(c["body"]) + ("/%d" % c["k"] if "G" in c["body"] else "") for c in cases})
         nontriv = sum(1 for c in cases if any(o["op"] in ("list", "take") and o["res"]["k"] == "lst" for o in c["h"]))
         takes = sorted({(o["n"]) for c in cases for o in c["h"] if o["op"] == "take"})
+        started = sum(1 for c in cases if any(o["op"] == "start" for o in c["h"]))
+        started_next = sum(1 for c in cases for i, o in enumerate(c["h"][:-1]) if o["op"] == "start" and c["h"][i + 1]["op"] == "next")
         twice = sum(1 for c in cases if sum(1 for o in c["h"] if o["op"] == "take" and o["res"]["k"] == "lst") >= 2)
         cov = {
             "states": res.distinct, "transitions": res.generated, "traces_validated_against_impl": total,
             "samples": [cases[0], cases[len(cases) // 3], cases[len(cases) // 2]],
             "history_depth": int(env["DEPTH"]), "histories": len(hs), "replay_cases": len(cases), "bodies": len(bodies),
             "body_list": bodies[:200], "take_first_n": takes, "histories_with_two_take_first": twice,
+            "histories_with_started_future": started, "next_issued_while_started": started_next,
             "inner_shapes": INNER, "builds": list(builds), "bounds": env,
-            "model_invariants": ["InOrder", "NothingLost", "OnlyValues", "TakeNoMore", "StopForEver", "EarlyAdvance"],
+            "model_invariants": ["InOrder", "NothingLost", "OnlyValues", "StartedIsUncomputed", "TakeNoMore", "StopForEver", "EarlyAdvance"],
             "model_ok": res.ok, "mismatching_histories": nmis, "violation_signatures": sigs,
             "evaluations": total, "distinct_nontrivial": nontriv,
-            "rule": "every history of %s operations (next, compute, list_of_generator, take_first(0..%s); <= %s consumer calls) over every "
+            "rule": "every history of %s operations (next, start = let the returned future run until it blocks on a batch, compute, "
+                    "list_of_generator, take_first(0..%s); <= %s consumer calls) over every "
                     "body in {A,V}^(<=%s) and every body of length <= %s with one nested generator of 0..%s Values; "
                     "non-trivial = a consumer ran on a generator it may advance" % (env["DEPTH"], env["TAKEMAX"], env["MAXCONS"],
                                                                                      env["MAXLEN"], env["MAXLENG"], env["MAXK"]),
@@ -117,6 +124,8 @@ def main():
                                            "when no Value is ahead the property allows StopIteration at once or a future evaluating to END_OF_GENERATOR; both are accepted",
                                            "a future returned for a Value that the body yields without an await before it is born computed (ConstFuture)",
                                            "the body's step counter is read after take_first/list_of_generator only; <= the prescribed maximum is accepted",
+                                           "a started-but-uncomputed future is realised by yielding it together with a sibling task while the body awaits a batch item; "
+                                           "the sibling issues the history's next() calls; only textual awaits (not inner-generator tasks) are started this way",
                                            "TLC and the replay harness are trusted"], tier_=tier)
         return rc
 
